@@ -386,7 +386,7 @@ def normalize(a, min_val=0, max_val=1):
         Normalized array.
 
     """
-    a = np.asarray(a)
+    a = np.asarray(a, dtype=float)
     a_min = a.min()
     a_max = a.max()
     return (a - a_min) / (a_max - a_min) * (max_val - min_val) + min_val
